@@ -532,6 +532,23 @@ fn dump_const_item<'tcx>(tcx: TyCtxt<'tcx>, did: DefId) -> Option<J> {
         if matches!(tcx.def_kind(did), DefKind::Const { .. }) {
             if let Ok(v) = tcx.const_eval_poly(did) {
                 fields.extend(const_value_json(tcx, ty, v));
+                // a struct constant: its fields (strings / integers / booleans), by name
+                if let ty::Adt(def, _) = ty.kind() {
+                    if def.is_struct() {
+                        if let Some(d) = tcx.try_destructure_mir_constant_for_user_output(v, ty) {
+                            let mut fs = Vec::new();
+                            for (i, (fv, fty)) in d.fields.iter().enumerate() {
+                                let mut o = vec![("ty", J::s(ty_str(*fty)))];
+                                if let Some(fd) = def.non_enum_variant().fields.iter().nth(i) {
+                                    o.push(("name", J::s(fd.name.to_string())));
+                                }
+                                o.extend(const_value_json(tcx, *fty, *fv));
+                                fs.push(J::obj(o));
+                            }
+                            fields.push(("fields", J::Arr(fs)));
+                        }
+                    }
+                }
             }
         }
     }
@@ -751,6 +768,10 @@ impl<'a, 'tcx> Cx<'a, 'tcx> {
                             f.push(("str", J::s(s)));
                             done = true;
                         }
+                        // `&CONST_ITEM`: the item
+                        if let Some(it) = self.promoted_item(uv.def, p) {
+                            f.push(("item", J::s(it)));
+                        }
                         // `&Enum::Variant` (a field-less variant): the variant name
                         if let Some((adt, v)) = self.promoted_variant(uv.def, p) {
                             f.push(("enum", J::s(adt)));
@@ -771,6 +792,32 @@ impl<'a, 'tcx> Cx<'a, 'tcx> {
             }
         }
         J::obj(vec![("k", J::obj(f))])
+    }
+
+    fn promoted_item(&self, def: DefId, p: mir::Promoted) -> Option<String> {
+        let ld = def.as_local()?;
+        let proms = self.tcx.promoted_mir(ld.to_def_id());
+        let b = proms.get(p)?;
+        let mut found: Vec<String> = Vec::new();
+        for bb in b.basic_blocks.iter() {
+            for st in &bb.statements {
+                if let StatementKind::Assign(bx) = &st.kind {
+                    let (_, rv) = &**bx;
+                    if let Rvalue::Use(Operand::Constant(c), ..) = rv {
+                        if let Const::Unevaluated(uv, _) = &c.const_ {
+                            if uv.promoted.is_none() && matches!(self.tcx.def_kind(uv.def), DefKind::Const { .. }) {
+                                found.push(def_path(self.tcx, uv.def));
+                            }
+                        }
+                    }
+                }
+            }
+        }
+        if found.len() == 1 {
+            found.pop()
+        } else {
+            None
+        }
     }
 
     fn promoted_variant(&self, def: DefId, p: mir::Promoted) -> Option<(String, String)> {
